@@ -126,6 +126,17 @@ def run(ctx, stop_first=False):
                     return first
                 break
         for t, l, r in rs:
+            rm = r.get("remesh_in_process")
+            ctx.count("specifications_meshed_again_in_the_same_process", 2 if rm else 0)
+            if rm and rm["first"] != rm["again"]:
+                rp = dict(config=name, threads=t, location=l, first=rm["first"], again=rm["again"])
+                ctx.fail("mesh-not-bit-identical:same-process", f"{name} ({t} threads): the same device specification meshed a second time in one process (another device was meshed in between) "
+                         f"gives another mesh: {[m_['n'] for m_ in rm['first']]} vs {[m_['n'] for m_ in rm['again']]} sites", rp)
+                first = first or dict(key="mesh-not-bit-identical:same-process", what="second mesh generation differs", **rp)
+                if stop_first:
+                    return first
+                break
+        for t, l, r in rs:
             sw = r.get("sweep")
             if sw and (not sw["same_mesh"] or sw["swept"] != sw["fresh"]):
                 rp = dict(config=name, threads=t, location=l, same_mesh=sw["same_mesh"])
